@@ -103,6 +103,16 @@ type Exec struct {
 	MaxPoints   int
 	Steps       int
 	userData    map[string]any
+	invariant   func() string
+	InvariantViolation string
+}
+
+// SetInvariant installs a state predicate evaluated at every scheduling decision of the
+// current execution; the first non-empty result is kept in InvariantViolation.
+func SetInvariant(f func() string) {
+	if cur != nil {
+		cur.invariant = f
+	}
 }
 
 // Owned is implemented by lock-like objects that know which thread holds them.
@@ -402,6 +412,11 @@ func (t *Thread) enabled() bool {
 func (e *Exec) pick(from *Thread) *Thread {
 	if e.Crash != "" || e.Diverged != "" {
 		return nil
+	}
+	if e.invariant != nil && e.InvariantViolation == "" {
+		if v := e.invariant(); v != "" {
+			e.InvariantViolation = v
+		}
 	}
 	if len(e.Points) > e.MaxPoints {
 		e.Diverged = "scheduling point cap exceeded (cyclic execution?)"
